@@ -40,13 +40,18 @@ RULE = ('one PRNG; a case is a random mesh (ring / 2xk or 3xk grid / random conn
         'and include nodes, other hop types: all-LOOSE / all-STRICT / mixed) before or after their original; ~8 % FULL '
         'detours (every ROADM and line element of a long real route, 11-25 hops); the route objects of a quarter of the '
         'requests are written in SHUFFLED order in the service document with indices >= 10 / strides (the loader must '
-        'order them numerically).  Non-trivial = some request has a non-empty include list and at least two '
+        'order them numerically); 30 % of the batches go through the whole planning() (reverse routes of the product); '
+        '12 % of the meshes have a PARALLEL link; bidirectional requests also on meshes with a one-way link (no reverse '
+        'route is demanded where the route crosses it).  Non-trivial = some request has a non-empty include list and at least two '
         'simple paths between its end points, or is blocked; ispart cases are always non-trivial.  Include lists '
         'never repeat a node (the code accepts [X, X], a subsequence reading does not: the property is silent).')
 MODEL_SCOPE = ('modelled: correct_json_route_list, compute_constrained_path decision logic, explicit_path (repaired: '
                'must be a walk and honour the list), ispart, find_reversed_path, edge-weight rule (fibre metres / 0.01); '
                'oracle instead of a model for networkx shortest_simple_paths / dijkstra_path. One STRICT hop makes the '
-               'whole list STRICT (documented simplification of the code, adopted by the monitor). not modelled: '
+               'whole list STRICT: documented simplification of the code, kept under CORRESPONDENCE with the oracle; the '
+               'MONITOR accepts, for a mixed list whose STRICT hops can be met, a block or a route crossing the STRICT hops; '
+               'for a STRICT hop with an unknown name a raised error or a no-path block; any member of BLOCKING_NOPATH as '
+               '"no-path reason". not modelled: '
                'PathRequest parameter plumbing, propagation (C13), spectrum assignment (C14). Requests with source = '
                'destination are outside the property\'s input space (planning() cannot serve them: propagation over the '
                'one-element path raises IndexError) and are never generated')
@@ -66,7 +71,9 @@ MANIFEST = {
             'the code is tied to it by differential execution on generated meshes (3-14 ROADMs) and an exhaustive sweep '
             'of all connected topologies on <= 5 ROADMs in the thorough tier. Trusted base: Lean 4.33 kernel (+ '
             'leanchecker in thorough), Mathlib v4.33, axioms propext/Classical.choice/Quot.sound only. One STRICT hop '
-            'makes the whole include list STRICT (the code\'s documented simplification, adopted by the monitor). '
+            'makes the whole include list STRICT: the code\'s documented simplification, kept under correspondence with the '
+            'oracle; the monitor only demands what the property states (a mixed list whose STRICT hops can be met may be '
+            'blocked or routed across the STRICT hops). '
             'Include lists never repeat a node (the property is silent on [X, X]).',
     'technique': 'Lean 4 verified oracle + verified checker for the routing decision, differential correspondence '
                  'against the real code, independent brute-force monitor',
@@ -116,7 +123,7 @@ def gen_request(rng, mesh, rid, allow_bidir=True, malformed_ok=True, widen=False
     inc = []
     src, dst = ['T', s], ['T', t]
     links = [lk for lk in mesh['links']]
-    dir_links = [(a, b) for (a, b, ab, ba, _) in links if ab] + [(b, a) for (a, b, ab, ba, _) in links if ba]
+    dir_links = sorted({(lk[0], lk[1]) for lk in links if lk[2]} | {(lk[1], lk[0]) for lk in links if lk[3]})
     paths = routing.mesh_simple_paths(mesh, s, t, limit=300) if s != t else []
     if style == 'roadms':
         k = rng.choice([1, 1, 2, 3])
@@ -244,7 +251,7 @@ def gen_mesh(rng, tier, widen=False):
     else:
         n = rng.choice([3, 4, 5, 6, 7, 8, 9, 10, 11, 12, 13, 14])
         max_extra = 4 if n <= 10 else 2
-    mesh = meshes.rand_mesh(rng, n, max_extra=max_extra)
+    mesh = meshes.rand_mesh(rng, n, max_extra=max_extra, parallel=0.12)
     oneway = False
     r = rng.random()
     if r < 0.07 and n >= 4:
@@ -274,19 +281,19 @@ def gen(rng, tier, widen=False):
             a = [rng.randrange(9) for _ in range(k)]
         return {'kind': 'ispart', 'a': a, 'b': b}
     mesh, oneway = gen_mesh(rng, tier, widen)
-    via = 'planning' if (rng.random() < 0.05 and not oneway) else 'dsjctn'
+    via = 'planning' if (rng.random() < 0.3 and not oneway) else 'dsjctn'
     if tier == 'thorough' and rng.random() < 0.04 and mesh['n'] <= 7:
         reqs = []
         for s in range(mesh['n']):
             for t in range(mesh['n']):
                 if s != t:
-                    r = gen_request(rng, mesh, len(reqs), allow_bidir=not oneway, widen=widen)
+                    r = gen_request(rng, mesh, len(reqs), allow_bidir=True, widen=widen)
                     if r['style'] != 'revisit' and r['src'][0] == 'T' and r['dst'][0] == 'T':
                         r['src'], r['dst'] = ['T', s], ['T', t]
                     reqs.append(r)
     else:
-        k = rng.randint(1, 3) if via == 'planning' else rng.randint(3, 8)
-        reqs = [gen_request(rng, mesh, i, allow_bidir=not oneway, malformed_ok=(via != 'planning'), widen=widen)
+        k = rng.randint(2, 5) if via == 'planning' else rng.randint(3, 8)
+        reqs = [gen_request(rng, mesh, i, allow_bidir=True, malformed_ok=(via != 'planning'), widen=widen)
                 for i in range(k)]
     if via == 'planning' and any(r['src'] == r['dst'] for r in reqs):
         via = 'dsjctn'       # source = destination is a degenerate request: propagation over [trx] raises IndexError
@@ -303,7 +310,7 @@ def add_twins(rng, mesh, reqs, oneway, via):
     base = [r for r in reqs if r['inc'] and r['style'] in ok_styles and r['src'][0] == 'T' and r['dst'][0] == 'T']
     if not base:
         for _ in range(6):
-            r = gen_request(rng, mesh, len(reqs), allow_bidir=not oneway, malformed_ok=False)
+            r = gen_request(rng, mesh, len(reqs), allow_bidir=True, malformed_ok=False)
             if r['inc'] and r['style'] in ok_styles:
                 reqs.append(r)
                 base = [r]
@@ -326,7 +333,7 @@ def add_twins(rng, mesh, reqs, oneway, via):
         t['id'] = max(r['id'] for r in reqs) + 1
         t['inc'] = [[it, h] for (it, _), h in zip(b['inc'], v)]
         t['style'] = 'twin'
-        t['bidir'] = bool(not oneway and rng.random() < 0.3)
+        t['bidir'] = bool(rng.random() < 0.3)
         at = reqs.index(b)
         where = rng.choice(['before', 'after', 'first', 'last'])
         pos = at if where == 'before' else at + 1 if where == 'after' else 0 if where == 'first' else len(reqs)
@@ -447,6 +454,10 @@ def check_edge_weights(net, res):
             raise AssertionError(f'generator guard: fibre {u} length {net.node[u].params.length} m is not a km multiple')
 
 
+# "a no-path reason": the family the code itself files under BLOCKING_NOPATH (which member is correspondence, not monitor)
+NOPATH = ('NO_PATH', 'NO_PATH_WITH_CONSTRAINT', 'NO_FEASIBLE_BAUDRATE_WITH_SPACING', 'NO_COMPUTED_SNR')
+
+
 def judge(net, res, rr, inc, hops, path, reason, where):
     """THE MONITOR for one request. inc = requested include nodes that exist (own clean-up), path = uids returned"""
     src, dst = rr['src'], rr['dst']
@@ -454,7 +465,7 @@ def judge(net, res, rr, inc, hops, path, reason, where):
     strict = S in hops
     tag = f'request {src}->{dst} include {inc} hops {hops}'
     info = {'npaths': len(allp), 'nvalid': len(valid)}
-    nopath = ('NO_PATH', 'NO_PATH_WITH_CONSTRAINT')
+    nopath = NOPATH
     if path:
         # a returned path is always a real loop-free route between the end points
         if path[0] != src or path[-1] != dst:
@@ -486,6 +497,19 @@ def judge(net, res, rr, inc, hops, path, reason, where):
         return info
     if strict:
         info['expect'] = 'NO_PATH_WITH_CONSTRAINT'
+        strict_inc = [u for u, h in zip(inc, hops) if h == S]
+        if L in hops and any(routing.crosses_in_order(strict_inc, p) for p in allp):
+            # mixed list: the STRICT hops can be met, only a LOOSE hop cannot.  The code blocks ('one STRICT hop makes the
+            # whole list STRICT', kept under correspondence with the oracle); the property is also satisfied by a route that
+            # drops the LOOSE hops and crosses the STRICT ones in order
+            info['mixed_lenient'] = True
+            if path:
+                if not routing.crosses_in_order(strict_inc, path):
+                    res.fail(f'strict hops not honoured: {where} path does not cross the STRICT hops {strict_inc} in '
+                             f'order ({tag})')
+            elif reason not in nopath:
+                res.fail(f'no route and no no-path reason: reason {reason} ({tag})')
+            return info
         if path or reason not in nopath:
             res.fail(f'strict not enforced: no route crosses the STRICT list in order but {where} returned '
                      f'{len(path)} elements, reason {reason} ({tag})')
@@ -538,9 +562,11 @@ def run_route(case, drv):
         res.cmp_exact('correct_json_route_list', [got[0], got[1]], [model[0], model[1]])
         res.stats[f'clean_{got[0]}' + (f'_{got[1]}' if got[0] == 'error' else '')] += 1
         if exp[0] == 'error':
-            if got[0] != 'error':
-                res.fail(f'clean-up: malformed request accepted (expected ServiceError {exp[1]}): src {rr["src"]} dst '
-                         f'{rr["dst"]} include {rr["inc"]}')
+            # the exact rejection (ServiceError) is the code's documented behaviour and stays under correspondence above;
+            # the property only says that a STRICT hop that cannot be met must not yield a route: a raised error or a
+            # request blocked with a no-path reason are both fine
+            if got[0] != 'error' and exp[1] == 'strict-unknown':
+                survivors.append((r0, rr, None, rq))
             continue
         if got[0] == 'error':
             res.fail(f'clean-up: well-formed request rejected ({got[1]}): include {rr["inc"]}')
@@ -585,6 +611,12 @@ def run_route(case, drv):
     for r0, rr, inc_hops, _ in survivors:
         p, reason, rp, rq = results[rr['id']]
         path = [e if isinstance(e, str) else e.uid for e in p]
+        if inc_hops is None:
+            if path or reason not in NOPATH:
+                res.fail(f'strict not enforced: a STRICT hop names an element that does not exist, yet {via} returned '
+                         f'{len(path)} elements, reason {reason} (include {rr["inc"]})')
+            res.stats['strict_unknown_accepted_by_loader'] += 1
+            continue
         inc = [u for u, _ in inc_hops]
         hops = [h for _, h in inc_hops]
         # -- the oracle ---------------------------------------------------------------------------------------------------
@@ -632,14 +664,20 @@ def run_route(case, drv):
                 if reason is None or rpath:
                     judge_reverse(net, res, rr, path, rpath, via)
             else:
+                m = drv.ask('c11.reverse', ends=[i for i, k in enumerate(net.kinds) if k in 'RT'],
+                            path=net.ids(path), **oargs)
                 try:
                     rpath = [e.uid for e in find_reversed_path(p)]
                 except Exception as e:
                     rpath = None
-                    res.fail(f'reverse: find_reversed_path raised {err_kind(e)} on a bidirectional mesh')
+                    back = {(ln[1], ln[0]) for ln in net.lines}
+                    if all((net.lines[k][0], net.lines[k][1]) in back for k in net.oms_seq(path)):
+                        res.fail(f'reverse: find_reversed_path raised {err_kind(e)} although every link of the route has '
+                                 f'an opposite direction')
+                    else:       # the route crosses a one-way link: no reverse route exists, nothing to demand
+                        res.stats['reverse_impossible_one_way_link'] += 1
+                        res.cmp_exact('find_reversed_path(one-way)', None, m)
                 if rpath is not None:
-                    m = drv.ask('c11.reverse', ends=[i for i, k in enumerate(net.kinds) if k in 'RT'],
-                                path=net.ids(path), **oargs)
                     res.cmp_exact('find_reversed_path', rpath, None if m is None else [net.uids[i] for i in m])
                     judge_reverse(net, res, rr, path, rpath, via)
             res.stats['bidir_checked'] += 1
@@ -723,5 +761,5 @@ def shrink_candidates(case):
     for i, lk in enumerate(case['mesh']['links']):
         if len(lk[2]) > 1 or len(lk[3]) > 1 or lk[4] != 'plain':
             c = copy.deepcopy(case)
-            c['mesh']['links'][i] = [lk[0], lk[1], lk[2][:1], lk[3][:1], 'plain']
+            c['mesh']['links'][i] = [lk[0], lk[1], lk[2][:1], lk[3][:1], 'plain'] + list(lk[5:])
             yield c
